@@ -325,6 +325,51 @@ def r7(ctx):
                 ctx.ok(rule, key, detail)
     ctx.floor(rule, exact, "C20.R7.read_exact_sites")
 
+def r8(ctx):
+    rule = "C20.R8"
+    ctx.rule(rule, "the extension marker does not exist on the DER wire (X.690 8.4: an ENUMERATED is encoded as its integer value, "
+                   "X.680 extensibility has no effect on BER / DER): BasicReader::read_enumerated and BasicWriter::write_enumerated "
+                   "decide on VARIANT_COUNT / from_choice_index only - a mention of STD_VARIANT_COUNT or EXTENSIBLE (the root / "
+                   "addition split of PER) makes one side refuse or reorder values the other side produces")
+    P = ctx.program()
+    n = 0
+    for side, pat in (("reader", "BasicReader"), ("writer", "BasicWriter")):
+        nm = "read_enumerated" if side == "reader" else "write_enumerated"
+        roots = [b for b in P.lib_bodies("asn1rs") if b.file.endswith("rw/der.rs") and b.name == nm and b.def_kind == "AssocFn" and pat in b.path]
+        if len(roots) != 1:
+            ctx.fail(rule, "anchor-lost:" + nm, "matched %d bodies" % len(roots))
+            continue
+        root = roots[0]
+        n += 1
+        found = []
+
+        def scan(o):
+            if isinstance(o, dict):
+                if o.get("k") == "const" and o.get("trait") and o.get("name") in ("STD_VARIANT_COUNT", "EXTENSIBLE", "EXTENDED_AFTER_INDEX"):
+                    found.append((o["name"], (o.get("sp") or {}).get("s")))
+                for k, v in o.items():
+                    if k not in ("sp", "fsp", "exp"):
+                        scan(v)
+            elif isinstance(o, list):
+                for v in o:
+                    scan(v)
+        bodies = [root] + P.closures_of(root)
+        for b in bodies:
+            scan(b.raw["blocks"])
+            # promoted constants of these bodies (`&(0..C::STD_VARIANT_COUNT)`)
+            for k, pb in P.bodies.items():
+                if k.startswith("%s::%s::promoted[" % (b.crate, b.path)):
+                    scan(pb.raw["blocks"])
+        d = {"function": root.path, "per_only_constants_mentioned": sorted({f[0] for f in found})}
+        if found:
+            ctx.fail(rule, nm + "#per-root-split", "%s mentions %s: the DER %s treats extension additions of an ENUMERATED differently from "
+                                                   "root values, which the other side does not" % (nm, found[0][0], side),
+                     "%s:%d" % (root.file, root.line), d)
+        else:
+            ctx.ok(rule, nm, d)
+    ctx.floor(rule, n, "C20.R8.functions")
+
+
 def run(ctx):
     with open(os.path.join(VERIF, "tables", "x690.json")) as fh:
         table = json.load(fh)
@@ -333,3 +378,4 @@ def run(ctx):
     r4(ctx)
     r6(ctx)
     r7(ctx)
+    r8(ctx)
